@@ -93,7 +93,7 @@ pub fn suffix_check(img: &Image, cfg: &CfgSpec, snap: Snapshot, sel: u64, max_id
     if max_id > run.max_id_seen {
         run.max_id_seen = max_id;
     }
-    let r = (|| -> Result<(), Fail> {
+    let r = std::panic::catch_unwind(std::panic::AssertUnwindSafe(|| -> Result<(), Fail> {
         run.check_state()?;
         run.check_full_read()?;
         for op in suffix_ops(sel) {
@@ -107,8 +107,12 @@ pub fn suffix_check(img: &Image, cfg: &CfgSpec, snap: Snapshot, sel: u64, max_id
         run.check_full_read()?;
         run.flush_and_settle()?;
         Ok(())
-    })();
-    run.finish();
+    }));
+    let r = match r {
+        Ok(r) => r,
+        Err(p) => Err(Fail::new("panic", format!("a write on the recovered store panicked: {} ({})", crate::driver::panic_msg(&p), crate::props::last_panic_location()))),
+    };
+    let _ = std::panic::catch_unwind(std::panic::AssertUnwindSafe(|| run.finish()));
     remove_dir(&dir);
     r.map_err(|mut f| {
         f.key = format!("after-recovery/{}", f.key);
